@@ -337,8 +337,8 @@ def run_case(case, ctx):
 def stages(tier):
     q = tier == "quick"
     return [
-        HypStage("hexdump", hexdump_case, examples=1500 if q else 12000, shards=4 if q else 8),
-        HypStage("dumpstruct", dumpstruct_case, examples=400 if q else 3000, shards=6 if q else 12),
+        HypStage("hexdump", hexdump_case, examples=1500 if q else 30000, shards=4 if q else 8),
+        HypStage("dumpstruct", dumpstruct_case, examples=400 if q else 6000, shards=6 if q else 12),
         HypStage("ints", int_case, examples=2000 if q else 20000, shards=2 if q else 4),
         EnumStage("int-table", int_table, shards=4, scope="fixed-width helpers: sizes {8,16,32,64} x 6 endian spellings x [-130, 600) + boundaries + 1500 pseudo-random values each"),
     ]
